@@ -41,9 +41,10 @@ theorem transport_cls {n : Nat} {cl : Nat → Nat} {bd0 o1 o2 : List Nat} (h1 : 
 
 /-- the class invariant is carried by every operation on the partition -/
 theorem clsOrdQ (hst : StablePerm) (n : Nat) (nb : Nbrs) (cl : Nat → Nat) (bd0 : List Nat) :
-    OrdQ n nb (ClsInv cl bd0) (ClsPL cl bd0) (ClsR cl) where
-  frame := fun _ _ e1 e2 e3 h => h.of_frame e1 e2 e3
-  deage := fun op op' hp ha hage h hd => by
+    OrdQ n nb (ClsInv cl bd0) (ClsInv cl bd0) (ClsInv cl bd0) (ClsPL cl bd0) (ClsR cl) := by
+  apply OrdQ.ofSimple
+  · exact fun _ _ e1 e2 e3 h => h.of_frame e1 e2 e3
+  · intro op op' hp ha hage h hd
     apply h.of_rearr
     · intro p v hv
       obtain ⟨q, hq, hs⟩ := deage_rearr hp ha hage hd p v hv
@@ -53,22 +54,22 @@ theorem clsOrdQ (hst : StablePerm) (n : Nat) (nb : Nbrs) (cl : Nat → Nat) (bd0
       rw [d4]
       have hne : a ≠ op.age := by omega
       exact List.mem_filter.2 ⟨hda, by simpa using hne⟩
-  split := fun cb fl op op' i w hp ha hi hns h hs => by
+  · intro cb fl op op' i w hp ha hi hns h hs
     obtain ⟨r1, r2⟩ := splitBin_rearr hp ha hi hns hs
     apply h.of_rearr
     · intro p v hv
       obtain ⟨q, hq, hsep⟩ := r1 p v hv
       exact ⟨q, hq, fun d a hda _ => hsep d (mem_bd_of_mem_divs hda)⟩
     · intro d a hda _; exact r2 _ hda
-  refine := fun cb fl opts op op' sc sc' w hp ha hsc h hr => by
+  · intro cb fl opts op op' sc sc' w hp ha hsc h hr
     obtain ⟨r1, r2⟩ := refine_rearr hst hp ha hsc hr
     apply h.of_rearr
     · intro p v hv
       obtain ⟨q, hq, hsep⟩ := r1 p v hv
       exact ⟨q, hq, fun d a hda _ => hsep d (mem_bd_of_mem_divs hda)⟩
     · intro d a hda _; exact r2 _ hda
-  leaf := fun _ h => h.pos
-  rel := fun _ _ h1 h2 p1 p2 => transport_cls h1 h2 p1 p2
+  · exact fun _ h => h.pos
+  · exact fun _ _ h1 h2 p1 p2 => transport_cls h1 h2 p1 p2
 
 /-- a permutation that preserves the initial `inCell` maps every class into itself -/
 theorem cls_of_inCell {n m : Nat} {cls : List (List Nat)} {op0 : OP} (hn : 0 < n) (hc : ClassesOK n (some cls))
